@@ -66,6 +66,8 @@ private:
   BindingEnv* env_;
   ManifestParserOptions options_;
   bool quiet_;
+  /// Nesting level of include/subninja files, to stop include cycles.
+  int include_depth_ = 0;
 
   // ins_/out_/validations_ are reused across invocations to ParseEdge(),
   // to save on the otherwise constant memory reallocation.
